@@ -43,7 +43,7 @@ def params(tier):
     if tier == 'quick':
         return {'examples': 500, 'wall': 80, 'case_timeout': 60, 'files': 150}
 
-    return {'examples': 1500, 'wall': 600, 'case_timeout': 120, 'files': 300}
+    return {'examples': 5000, 'wall': 600, 'case_timeout': 120, 'files': 300}
 
 
 def floors(tier):
